@@ -724,20 +724,20 @@ fn main() {
     simcore::main_with(
         "C08",
         &[
-            Scenario { name: "ipc_file", runs_quick: 1200, runs_thorough: 40000, f: ipc_file },
-            Scenario { name: "ipc_stream", runs_quick: 1500, runs_thorough: 60000, f: ipc_stream },
-            Scenario { name: "stream_decoder", runs_quick: 1500, runs_thorough: 60000, f: stream_decoder },
-            Scenario { name: "flight", runs_quick: 1000, runs_thorough: 40000, f: flight },
-            Scenario { name: "parquet", runs_quick: 1500, runs_thorough: 60000, f: parquet },
-            Scenario { name: "pq_meta", runs_quick: 1000, runs_thorough: 40000, f: pq_meta },
-            Scenario { name: "avro_ocf", runs_quick: 1000, runs_thorough: 40000, f: avro_ocf },
-            Scenario { name: "csv", runs_quick: 800, runs_thorough: 30000, f: csv },
-            Scenario { name: "json", runs_quick: 800, runs_thorough: 30000, f: json },
-            Scenario { name: "variant", runs_quick: 1500, runs_thorough: 60000, f: variant },
-            Scenario { name: "sweep_ipc_stream", runs_quick: 96, runs_thorough: 4000, f: sweep_ipc_stream },
-            Scenario { name: "sweep_parquet", runs_quick: 240, runs_thorough: 8000, f: sweep_parquet },
-            Scenario { name: "sweep_parquet_dict", runs_quick: 80, runs_thorough: 3000, f: sweep_parquet_dict },
-            Scenario { name: "sweep_avro", runs_quick: 120, runs_thorough: 4000, f: sweep_avro },
+            Scenario { name: "ipc_file", runs_quick: 1200, runs_thorough: 9600, f: ipc_file },
+            Scenario { name: "ipc_stream", runs_quick: 1500, runs_thorough: 12000, f: ipc_stream },
+            Scenario { name: "stream_decoder", runs_quick: 1500, runs_thorough: 12000, f: stream_decoder },
+            Scenario { name: "flight", runs_quick: 1000, runs_thorough: 8000, f: flight },
+            Scenario { name: "parquet", runs_quick: 1500, runs_thorough: 12000, f: parquet },
+            Scenario { name: "pq_meta", runs_quick: 1000, runs_thorough: 8000, f: pq_meta },
+            Scenario { name: "avro_ocf", runs_quick: 1000, runs_thorough: 8000, f: avro_ocf },
+            Scenario { name: "csv", runs_quick: 800, runs_thorough: 6400, f: csv },
+            Scenario { name: "json", runs_quick: 800, runs_thorough: 6400, f: json },
+            Scenario { name: "variant", runs_quick: 1500, runs_thorough: 12000, f: variant },
+            Scenario { name: "sweep_ipc_stream", runs_quick: 96, runs_thorough: 768, f: sweep_ipc_stream },
+            Scenario { name: "sweep_parquet", runs_quick: 240, runs_thorough: 1920, f: sweep_parquet },
+            Scenario { name: "sweep_parquet_dict", runs_quick: 80, runs_thorough: 640, f: sweep_parquet_dict },
+            Scenario { name: "sweep_avro", runs_quick: 120, runs_thorough: 960, f: sweep_avro },
         ],
     );
 }
